@@ -148,7 +148,10 @@ Inductive command :=
 | CStatus                          (* STATUS of any mailbox while a mailbox is selected: handleStatus flushes the selected one *)
 | CCheck
 | CIdle
-| CDone.
+| CDone
+| CClose      (* CLOSE: the \Deleted messages are removed without EXPUNGE responses, whatever else is pending is sent, the
+                 mailbox is left (Mailbox.Close -> State.close: snapshot and pending responders are dropped) *)
+| CUnselect.  (* UNSELECT: the mailbox is left at once; nothing is removed, nothing is sent *)
 
 Inductive conn_update :=
 | XNew (mb : N) (f : flagset)
@@ -316,7 +319,10 @@ Definition do_cmd (w : world) (i : nat) (c : command) : world * list resp * outc
       | CDone => (w, [], OBadState)
       | _ =>
         match ss_sel s with
-        | None => (w, [], OBadState)
+        | None => match c with
+                  | CNoop => (w, [], OOk)   (* NOOP with no mailbox selected: nothing to flush *)
+                  | _ => (w, [], OBadState)
+                  end
         | Some sel =>
           let sn := s_snap (ss_st s) in
           match c with
@@ -409,6 +415,32 @@ Definition do_cmd (w : world) (i : nat) (c : command) : world * list resp * outc
           | CNoop => ret (finish w i [] false (own_permits "handleNoop"))
           | CStatus => ret (finish w i [] false (own_permits "handleStatus"))
           | CCheck => ret (finish w i [] false (sel_permits "Check"))
+          | CClose =>
+              let ms := filter (fun m => row_has m (mbox_of w sel))
+                               (map sm_id (filter (fun x => fl_mem fl_deleted (sm_flags x)) sn)) in
+              let '(w1, ups) := remove_rows w sel ms in
+              match broadcast ups (Some i) false 0 (w_sess w1) with
+              | None => fail
+              | Some ss =>
+                  let w2 := set_sess ss w1 in
+                  match get_sess w2 i with
+                  | None => fail
+                  | Some s1 =>
+                      (* handleClose's flush permits expunges; in the CLOSE context the expunge responders answer nothing
+                         and the responses are not merged (State.flushResponses) *)
+                      match own_permits "handleClose" with
+                      | [permit] =>
+                          match flush_raw permit (ss_st s1) with
+                          | None => fail
+                          | Some (_, out) =>
+                              (put_sess i (mkSess None (mkS [] []) (ss_queue s1) false) w2,
+                               filter (fun r => negb (is_pexpunge r)) out, OOk)
+                          end
+                      | _ => fail
+                      end
+                  end
+              end
+          | CUnselect => (put_sess i (mkSess None (mkS [] []) (ss_queue s) false) w, [], OOk)
           | CIdle =>
               match sess_flush true s with
               | None => fail
